@@ -110,6 +110,10 @@ theorem update_applies_only_if {cfg : ZoneCfg} {buf : Bytes} {now : Nat} {rdok :
         unfold authorizeUpdate at ha
         split at ha
         · simp only [Outcome.ok.injEq] at ha; subst ha; simp [Auth.ok, NOTIMP] at he
+        split at ha
+        · simp only [Outcome.ok.injEq] at ha; subst ha; simp [Auth.ok, NOTAUTH] at he
+        split at ha
+        · simp only [Outcome.ok.injEq] at ha; subst ha; simp [Auth.ok, NOTIMP] at he
         · split at ha
           · simp only [Outcome.ok.injEq] at ha; subst ha; simp [Auth.ok, REFUSED] at he
           · rename_i hau
@@ -191,9 +195,22 @@ theorem in_memory_store {cfg : ZoneCfg} {buf : Bytes} {now : Nat} {rdok : Bool}
   · simp at h
   · split at h
     · simp only [Outcome.ok.injEq, Option.some.injEq] at h; subst h; simp at he
-    · unfold authorizeUpdate at h
-      simp only [hm, ↓reduceIte, Outcome.ok.injEq, Option.some.injEq] at h
-      subst h; simp [Auth.ok, NOTIMP] at he
+    · have hno : ∀ rq a, authorizeUpdate cfg rq buf now rdok = .ok a → a.rcode ≠ 0 := by
+        intro rq a ha
+        unfold authorizeUpdate at ha
+        simp only [hm, ↓reduceIte] at ha
+        split at ha
+        · simp only [Outcome.ok.injEq] at ha; subst ha; simp [NOTIMP]
+        · split at ha
+          · simp only [Outcome.ok.injEq] at ha; subst ha; simp [NOTAUTH]
+          · simp only [Outcome.ok.injEq] at ha; subst ha; simp [NOTIMP]
+      split at h
+      · rename_i a ha
+        simp only [Outcome.ok.injEq, Option.some.injEq] at h; subst h
+        simp only [Auth.ok, beq_iff_eq] at he
+        exact absurd he (hno _ a ha)
+      · simp at h
+      · simp at h
     · unfold authorizeAxfr at h
       simp only [hm, ↓reduceIte] at h
       by_cases hp : cfg.axfr = .allowAll
@@ -201,6 +218,43 @@ theorem in_memory_store {cfg : ZoneCfg} {buf : Bytes} {now : Nat} {rdok : Bool}
         exact ⟨rfl, hp⟩
       · simp only [hp, ↓reduceIte, Outcome.ok.injEq, Option.some.injEq] at h; subst h
         simp [Auth.ok, REFUSED] at he
+
+/-- What is finally sent (`respond`: SERVFAIL when the reply cannot be signed) never *adds* an
+effect: the only-if theorems about `serve` carry over to the reply. -/
+theorem respond_effect_only_if {now : Nat} {d : Decision} (h : (respond now d).effect = true) :
+    d.effect = true := by
+  unfold respond at h
+  split at h
+  · simp only at h
+    split at h
+    · simp at h
+    · exact h
+  · exact h
+
+/-- while the clock fits the 48-bit TSIG time, `respond` changes nothing -/
+theorem respond_id {now : Nat} (d : Decision) (h : ¬ ClockBeyond48Bits now) : respond now d = d := by
+  unfold respond
+  unfold ClockBeyond48Bits at h
+  rw [if_neg (fun hc => h hc.2)]
+
+/-- An UPDATE is never applied to a zone that is not Primary. -/
+theorem non_primary_never_updates {cfg : ZoneCfg} {buf : Bytes} {now : Nat} {rdok : Bool}
+    {d : Decision} (h : serve cfg buf now rdok = .ok (some d)) (hk : d.kind = .update)
+    (hz : cfg.zoneType ≠ 0) : d.effect = false := by
+  unfold serve at h
+  split at h
+  · simp at h
+  · simp at h
+  · split at h
+    · simp only [Outcome.ok.injEq, Option.some.injEq] at h; subst h; simp at hk
+    · unfold authorizeUpdate at h
+      by_cases h1 : cfg.zoneType = 1
+      · simp only [h1, ↓reduceIte, Outcome.ok.injEq, Option.some.injEq] at h
+        subst h; simp [Auth.ok, NOTIMP]
+      · simp only [h1, hz, ne_eq, not_false_eq_true, ↓reduceIte, Outcome.ok.injEq,
+          Option.some.injEq] at h
+        subst h; simp [Auth.ok, NOTAUTH]
+    · split at h <;> first | (simp only [Outcome.ok.injEq, Option.some.injEq] at h; subst h; simp at hk) | simp at h
 
 /-- A request that is neither an UPDATE nor an AXFR for the zone has no guarded effect. -/
 theorem other_no_effect {cfg : ZoneCfg} {buf : Bytes} {now : Nat} {rdok : Bool}
